@@ -89,4 +89,17 @@ PROPS = {
             "assumptions": ["float32 rounding is outside the theorems", "np.save / np.load / json trusted",
                             "whole-tree induction over the two passes of one iteration is _partial (node step, base case, frame, plus-clipping, save/load are proved)"],
             "trusted": ["table length and stored limit are read off the real object and fed to the model (Policy.explicit)"]},
+    "C15": {"lean": "ICG.Props.C15", "streams": [("corr_normalize", "C15")], "quick_s": 40, "thorough_s": 600,
+            "rule": ("exact sub-stream: integer/dyadic SA games (closure, negative / non-zero singletons, additive, nearly additive) with power-of-two (or 0) surplus, n=1..5, and integer "
+                     "matrices with junk below the diagonal as GraphCooperativeGame and as its table; normalize_game / denormalize_game compared as strings with the model incl. the closed "
+                     "form; ~12% malformed (partial tables -> err:value, short singleton info -> err:index). float sub-stream: every live GENERATORS key except convex, n=3..5, tolerance "
+                     "1e-9, oracle = property clauses, closed form compared except where |surplus| <= 1e-9*scale. non-trivial = n>=3, a non-zero singleton (or >=2 distinct graph weights), "
+                     "non-zero surplus, >=3 distinct normalised values; distinct by (representation, values)"),
+            "assumptions": ["float rounding is outside the theorems", "'superadditive again' on floats uses absolute tolerance 1e-9, not the library's atol=0 predicate"]},
+    "C10": {"lean": "ICG.Props.C10", "streams": [("corr_generators", "C10")], "quick_s": 40, "thorough_s": 600,
+            "rule": ("every live GENERATORS key except convex x n=3..5 (quick) / 3..8 (thorough) x seeds from VERIF_SEED; family recognised by registered function + partial keywords "
+                     "(unknown -> notes, oracle only); recording Generator subclass (xos*: twin replay; graph families: exposed weight matrix); exact comparison for integer/unit/max-only "
+                     "families, 1e-12 relative elsewhere; oracle: returns, n, length 2^n, float64, finite, v[0]==0, SA (exact rationals, rtol 1e-9), monotone for XOS/XS/OXS/budget/coverage, "
+                     "seed-determinism except graph_generator keys and predictible_factory. non-trivial = >=3 distinct values and not symmetric under any transposition; distinct by (key,n,seed)"),
+            "trusted": ["numpy distributions stay in their documented ranges; networkx graph generators"]},
 }
